@@ -12,6 +12,9 @@ TRUSTED_BASE = [
     "Conn half: hand-written model coq/Model/ConnWriters.v of write.go / sizeof.go / protocol.go requestHeader / the request structs' size()+writeTo() / recordbatch.go, "
     "tied byte-exact to the real kafka.Conn (harness/cmd/c04conn over an in-memory net.Conn, hooks /repo/verif_export_c04.go + verif_export_c11.go/_c06.go) and, independently, "
     "to the protocol package (protocol.WriteRequest of the equivalent message, protocol.ReadRequest of the captured produce frames); ocaml/c04conn_driver.ml",
+    "Conn half, response direction: coq/Model/Legacy.v + ConnOps.v (reader combinators of read.go, response grammars, inline readers; shared with C11/C17) and coq/Model/ConnReaders.v "
+    "(reader table, consumer-group subscription/assignment blobs) tied to the real readers (readFrom()/read()/readFetchResponseHeaderVx/readMapStringInt32 through /repo/verif_export_c04b.go, "
+    "Conn.ApiVersions on a scripted peer) by comparing the decoded Go value field by field; harness-side reference encoder checked against Legacy.enc; ocaml/c04connr_driver.ml",
 ]
 ASSUMPTIONS = [
     "record sets inside produce/fetch are delegated to C05 (arrays that would contain a RecordSet stay empty at this level)",
@@ -292,7 +295,11 @@ def correspondence(ctx):
                      "(nil/empty/long keys, values, strings; headers; equal, sub-millisecond, distinct and zero message times; 1..70 messages; boundary ints; default/explicit client id); the bytes "
                      "written are (i) checked against the property directly (size prefix = bytes that follow, header fields), (ii) compared byte for byte with the extracted ConnWriters model, "
                      "(iii) decoded and re-encoded by the generic schema model under the regenerated schemas (canonical), (iv) compared with protocol.WriteRequest of the equivalent protocol "
-                     "message / decoded by protocol.ReadRequest; negotiated versions against random advertised ranges",
+                     "message / decoded by protocol.ReadRequest; negotiated versions against random advertised ranges. Response direction (op cresp): for each of the 29 hand-written response readers "
+                     "(13 response structs at every version incl. reflective metadata v1/v6, produce/list-offsets partition structs, fetch headers v2/v5/v10, ApiVersions through the Conn, the consumer-group "
+                     "metadata and assignment blobs) wire values generated from the grammar (arrays null/0/1/2/3/4-6 at every level, maps with several and duplicate topics, null/empty/long strings and "
+                     "bytes, boundary ints), encoded by a reference encoder (= Legacy.enc, checked), decoded by the real reader; the rendered Go value and remaining size must equal the model's, and "
+                     "the protocol package must re-encode the frame identically / decode the blobs to the same fields",
                 samples=[c["line"][:240] + " | " + c["go"][:120] for c in cases[:2] + cases[len(cases)//2:len(cases)//2+2]]
                         + [c["line"][:240] + " | " + c["go"][:120] for c in cc["cases"][12:13] + cc["cases"][40:41]],
                 failures=failures, extra=dict(schemas=len({c["args"].split(" ")[0] for c in cases}), unknown_tag_frames=len(ut),
